@@ -31,7 +31,7 @@ FLOORS = {"quick": {"history_calls": 80, "golden_processes": 16, "snapshots_comp
 def plan(tier, seed):
     n = 12 if tier == "quick" else 40
     return [{"index": i, "seed": [seed, 91, i], "cfg": "quick", "cfg_over": {"max_T": 3, "max_cells": 6000, "max_states": 3, "max_choices": 3},
-             "force": {"stochastic": i % 2 == 0, "filters": i % 3 == 0, "aux_params": True},
+             "force": {"stochastic": i % 2 == 0, "two_stochastic": i % 4 == 0, "filters": i % 3 == 0, "aux_params": True},
              "hist_len": 9 if tier == "quick" else 30, "hash_seeds": [1, 1234] if tier == "quick" else [1, 7, 1234, 99991],
              "jit_false_solve": i % 4 == 3, "env": {"VERIF_X64": "1", "PYTHONHASHSEED": "0"}} for i in range(n)]
 
